@@ -183,7 +183,11 @@ func (tx *Transaction) Commit(ctx context.Context, scope *ReferenceScope, expr p
 			}
 
 			if !tx.Flags.ExportOptions.StripEndingLineBreak && !(fileInfo.Format == option.FIXED && fileInfo.SingleLine) {
-				if _, err := fp.Write([]byte(fileInfo.LineBreak.Value())); err != nil {
+				lb, err := EncodeEndingLineBreak(fileInfo.LineBreak, fileInfo.Format, fileInfo.Encoding)
+				if err != nil {
+					return NewCommitError(expr, err.Error())
+				}
+				if _, err := fp.Write(lb); err != nil {
 					return NewCommitError(expr, err.Error())
 				}
 			}
@@ -210,7 +214,11 @@ func (tx *Transaction) Commit(ctx context.Context, scope *ReferenceScope, expr p
 			}
 
 			if !tx.Flags.ExportOptions.StripEndingLineBreak && !(fileInfo.Format == option.FIXED && fileInfo.SingleLine) {
-				if _, err := fp.Write([]byte(fileInfo.LineBreak.Value())); err != nil {
+				lb, err := EncodeEndingLineBreak(fileInfo.LineBreak, fileInfo.Format, fileInfo.Encoding)
+				if err != nil {
+					return NewCommitError(expr, err.Error())
+				}
+				if _, err := fp.Write(lb); err != nil {
 					return NewCommitError(expr, err.Error())
 				}
 			}
